@@ -115,16 +115,9 @@ def run_case(case):
 
     # ---- 1. the whole operator, from basis inputs (one batched call)
     ntot = int(np.prod(size))
-    if ntot <= 640:
-        B = dwtu.basis(size)                 # (n, *size)
-        r.label('full_operator')
-    else:
-        # big images: a generated subset of the operator's columns
-        idx = np.random.RandomState(case['k']).choice(ntot, 48, replace=False)
-        B = np.zeros((48, ntot))
-        B[np.arange(48), idx] = 1.0
-        B = B.reshape([48] + size)
-        r.label('operator_column_subset')
+    M, full = dwtu.basis_rows(ntot, case['k'], cap=dwtu.op_cap(dim, L))
+    B = M.reshape([M.shape[0]] + size)       # (n, *size)
+    r.label('full_operator' if full else 'operator_column_subset')
     X = torch.tensor(B[:, None], dtype=tdt)  # (n, 1, *size)
     ok, out = lib(mod, X)
     if not ok:
